@@ -1,0 +1,35 @@
+//go:build verif
+
+// Contracts for the gowp verifier (/verif): comment-only file, compiled only with -tags verif.
+// Interface contracts of etype.EType: every implementation in the repository is verified against
+// them; callers through the interface see only these. The tables et_* are spec functions
+// transcribed from RFC 3961/3962/8009/4757 and the IANA registry (/verif/spec/etype.smt2).
+package etype
+
+//@ func (crypto/etype.EType).GetETypeID(e) (r)
+//@   pure
+//@   ensures r == et_id(tagof(e))
+//@ func (crypto/etype.EType).GetHashID(e) (r)
+//@   pure
+//@   ensures r == et_cksumid(tagof(e))
+//@ func (crypto/etype.EType).GetKeyByteSize(e) (r)
+//@   pure
+//@   ensures r == et_keybytes(tagof(e))
+//@ func (crypto/etype.EType).GetKeySeedBitLength(e) (r)
+//@   pure
+//@   ensures r == et_seedbits(tagof(e))
+//@ func (crypto/etype.EType).GetHMACBitLength(e) (r)
+//@   pure
+//@   ensures r == et_hmacbits(tagof(e))
+//@ func (crypto/etype.EType).GetMessageBlockByteSize(e) (r)
+//@   pure
+//@   ensures r == et_msgblock(tagof(e))
+//@ func (crypto/etype.EType).GetCypherBlockBitLength(e) (r)
+//@   pure
+//@   ensures r == et_blockbits(tagof(e))
+//@ func (crypto/etype.EType).GetConfounderByteSize(e) (r)
+//@   pure
+//@   ensures r == et_confounder(tagof(e))
+//@ func (crypto/etype.EType).GetHashFunc(e) (r)
+//@   pure
+//@   ensures r == et_hashfn(tagof(e))
